@@ -24,6 +24,9 @@ var (
 // stallStep is the scheduler step whose release is being waited for (engines that support -sim.freeafter publish it).
 var stallStep atomic.Int64
 
+// stallResolvable is set while an engine runs that can re-execute a seed free-running from a given step.
+var stallResolvable atomic.Bool
+
 func beginWait() { waitEpoch.Add(1); waiting.Store(1) }
 func endWait()   { waiting.Store(0); waitEpoch.Add(1) }
 
@@ -68,7 +71,11 @@ func startStallWatchdog() {
 			buf := make([]byte, 8<<20)
 			buf = buf[:runtime.Stack(buf, true)]
 			var culprits, rest []string
+			busy := false
 			for _, g := range strings.Split(string(buf), "\n\n") {
+				if (strings.Contains(g, "[running") || strings.Contains(g, "[runnable")) && !strings.Contains(g, "startStallWatchdog") {
+					busy = true // somebody is computing: whatever is blocked may simply be waiting for that
+				}
 				lib := false
 				for _, l := range strings.Split(g, "\n") {
 					if strings.HasPrefix(l, "github.com/minio/simdjson-go.") {
@@ -85,8 +92,8 @@ func startStallWatchdog() {
 					rest = append(rest, g)
 				}
 			}
-			if len(culprits) == 0 || waitEpoch.Load() != epoch {
-				// nothing blocked in library code: a long computation; the orchestrator's timer owns that case
+			if busy || len(culprits) == 0 || waitEpoch.Load() != epoch {
+				// a goroutine is still computing, or nothing is blocked in library code: the orchestrator's timer owns that case
 				since = time.Now().Add(stallAfter) // look again after another 2 x stallAfter
 				continue
 			}
@@ -99,6 +106,12 @@ func startStallWatchdog() {
 				if strings.Contains(g, ".(*Sched).Park") && strings.Contains(g, "simdjson-go.simHook(") {
 					held++
 				}
+			}
+			if held > 0 && !stallResolvable.Load() {
+				// engines without the -sim.freeafter resolution: behave as before this watchdog existed (the
+				// orchestrator's stall timer and its fresh-child confirmation own the case)
+				since = time.Now().Add(stallAfter)
+				continue
 			}
 			if held > 0 {
 				fmt.Fprintf(os.Stderr, "SIM-LIMITATION: step=%d a goroutine is blocked in library code on something outside the simulation while the simulator holds %d goroutine(s) parked inside library calls; not a verdict (no progress for %v)\n\n%s\n", stallStep.Load(), held, stallAfter, strings.Join(culprits, "\n\n"))
